@@ -13,16 +13,31 @@ type Timer struct {
 	stopped bool
 	fired   bool
 	Name    string
+	h       Hash
+	vc      []uint32
 }
 
 type clock struct {
 	now    int64
 	timers []*Timer
-	obj    Obj
+	extra  Hash
 	seq    int
+	firing *Timer // timer whose Fire function is running (scheduler context)
 }
 
-func (c *clock) init() { c.obj.H = HashString("clock") }
+func (c *clock) init() { c.extra = HashString("clock") }
+
+// hash of the clock state: virtual time and the set of live timers (independent of creation order).
+func (c *clock) hash() Hash {
+	var a, b uint64
+	for _, t := range c.timers {
+		if !t.stopped && !t.fired {
+			a += t.h.A
+			b += t.h.B
+		}
+	}
+	return Hash{a, b}.Mix(uint64(c.now)).MixH(c.extra)
+}
 
 func (c *clock) pending() bool {
 	for _, t := range c.timers {
@@ -41,7 +56,7 @@ func NowNs() int64 {
 		return freeNow
 	}
 	if e.running != nil && !e.aborting {
-		e.running.chain = e.running.chain.MixH(e.clk.obj.H).Mix(uint64(e.clk.now))
+		e.running.chain = e.running.chain.Mix(uint64(e.clk.now) + 0x70)
 	}
 	return e.clk.now
 }
@@ -63,10 +78,12 @@ func AddTimer(at int64, name string, fire func()) *Timer {
 	e.clk.seq++
 	t.seq = e.clk.seq
 	e.clk.timers = append(e.clk.timers, t)
-	if e.running != nil {
+	t.h = HashString(name).Mix(uint64(at))
+	if e.running != nil && !e.aborting {
 		e.running.chain = e.running.chain.Mix(uint64(at) + 0x71)
-		// creation of a timer changes the clock object (visible to the scheduler)
-		e.clk.obj.H = e.clk.obj.H.MixH(e.running.chain)
+		t.h = t.h.MixH(e.running.chain)
+		e.running.tick()
+		t.vc = append([]uint32(nil), e.running.vc...)
 	}
 	return t
 }
@@ -75,9 +92,8 @@ func AddTimer(at int64, name string, fire func()) *Timer {
 func (t *Timer) Stop() bool {
 	was := !t.stopped && !t.fired
 	t.stopped = true
-	if e := cur; e != nil && e.running != nil && was {
+	if e := cur; e != nil && e.running != nil && was && !e.aborting {
 		e.running.chain = e.running.chain.Mix(uint64(t.At) + 0x72)
-		e.clk.obj.H = e.clk.obj.H.MixH(e.running.chain)
 	}
 	return was
 }
@@ -119,11 +135,31 @@ func (c *clock) step(e *Exec) {
 		c.now = t.At
 	}
 	t.fired = true
-	c.obj.H = c.obj.H.Mix(uint64(t.At)).MixH(HashString(t.Name))
+	c.firing = t
 	if e.Trace {
 		e.Log = append(e.Log, fmt.Sprintf("%5d t=%-9d %-28s fire %s", e.Steps, c.now, "clock", t.Name))
 	}
 	t.Fire()
+	c.firing = nil
+}
+
+// TouchFromTimer marks o as modified by the timer that is firing (scheduler context): the effect
+// carries the causal past of the timer's creator and the new clock value.
+func TouchFromTimer(o *Obj) {
+	e := cur
+	if e == nil {
+		return
+	}
+	if o.Epoch != e.Epoch {
+		o.Epoch = e.Epoch
+		o.H = HashString("timer-made")
+		o.VC = nil
+	}
+	o.H = o.H.Mix(uint64(e.clk.now) + 0x99)
+	if t := e.clk.firing; t != nil {
+		o.H = o.H.MixH(t.h)
+		o.VC = joinVC(o.VC, t.vc)
+	}
 }
 
 // chooseRaw is a free choice taken in scheduler context (no thread chain involved).
@@ -144,7 +180,7 @@ func (e *Exec) chooseRaw(n int, what string) int {
 	}
 	p.Chosen = c
 	e.Points = append(e.Points, p)
-	e.clk.obj.H = e.clk.obj.H.Mix(uint64(c) + 4242)
+	e.clk.extra = e.clk.extra.Mix(uint64(c) + 4242)
 	return c
 }
 
@@ -156,3 +192,6 @@ func SpawnFromTimer(name string, fn func()) {
 	}
 	e.goFromClock(name, fn)
 }
+
+// InTimer reports whether a timer's Fire function is running (scheduler context).
+func InTimer() bool { return cur != nil && cur.clk.firing != nil }
